@@ -437,7 +437,7 @@ package graph
 
 // ---- sparse representation (safety level): sizes, sorted in-range neighbour lists
 //@ pred sortedInts(s []int) = forall i in 0..len(s): forall j in i+1..len(s): s[i] < s[j]
-//@ pred wfSparse(g *SparseGraph) = 0 <= g.NumberOfVertices && g.NumberOfVertices <= 16777216 && len(g.Neighbourhoods) == g.NumberOfVertices && len(g.DegreeSequence) == g.NumberOfVertices && (forall v in 0..g.NumberOfVertices: sortedInts(g.Neighbourhoods[v]) && (forall k in 0..len(g.Neighbourhoods[v]): 0 <= g.Neighbourhoods[v][k] && g.Neighbourhoods[v][k] < g.NumberOfVertices))
+//@ pred wfSparse(g *SparseGraph) = 0 <= g.NumberOfVertices && g.NumberOfVertices <= 16777216 && len(g.Neighbourhoods) == g.NumberOfVertices && len(g.DegreeSequence) == g.NumberOfVertices && (forall v in 0..g.NumberOfVertices: sortedInts(g.Neighbourhoods[v]) && (forall k in 0..len(g.Neighbourhoods[v]): 0 <= g.Neighbourhoods[v][k] && g.Neighbourhoods[v][k] < g.NumberOfVertices)) && (forall v in 0..g.NumberOfVertices: ref(g.Neighbourhoods[v]) != ref(g.DegreeSequence) || len(g.Neighbourhoods[v]) == 0)
 
 //@ func NewSparse
 //@   requires 0 <= n && n <= 16777216 && neighbourhoods == nil
@@ -463,17 +463,18 @@ package graph
 //@   requires 0 <= i && i < g.NumberOfVertices && 0 <= j && j < g.NumberOfVertices && len(g.Neighbourhoods) == g.NumberOfVertices && len(g.DegreeSequence) == g.NumberOfVertices
 //@   requires forall v in 0..g.NumberOfVertices: sortedInts(g.Neighbourhoods[v])
 
-// ASSUMED (opt assumed): the preservation of the list invariants through the two
-// Add calls did not discharge within the time limits; used only as a safety
-// contract by Sparse6Decode and covered by the bounded stand-ins.
+// Proved relative to the assumed contract of (*SortedInts).Add; the clause that neighbour lists
+// do not share their backing array with the degree sequence is part of wfSparse (without it
+// DegreeSequence[i]++ could overwrite list elements).
 //@ func (*SparseGraph).AddEdge
-//@   opt assumed
+//@   opt patterns=simple
 //@   requires wfSparse(g) && 0 <= i && i < g.NumberOfVertices && 0 <= j && j < g.NumberOfVertices
 //@   modifies g, g.Neighbourhoods, g.DegreeSequence
 //@   ensures g.NumberOfVertices == old(g.NumberOfVertices) && len(g.Neighbourhoods) == g.NumberOfVertices && len(g.DegreeSequence) == g.NumberOfVertices
 //@   ensures sameslice(g.Neighbourhoods, old(g.Neighbourhoods)) && sameslice(g.DegreeSequence, old(g.DegreeSequence))
 //@   ensures forall v in 0..g.NumberOfVertices: sortedInts(g.Neighbourhoods[v])
 //@   ensures forall v in 0..g.NumberOfVertices: forall k in 0..len(g.Neighbourhoods[v]): 0 <= g.Neighbourhoods[v][k] && g.Neighbourhoods[v][k] < g.NumberOfVertices
+//@   ensures forall v in 0..g.NumberOfVertices: ref(g.Neighbourhoods[v]) != ref(g.DegreeSequence) || len(g.Neighbourhoods[v]) == 0
 //@   opt wrapcounters=NumberOfEdges,DegreeSequence
 
 //@ pred s6prefix(s string) = len(s) >= 11 && s[0] == 62 && s[1] == 62 && s[2] == 115 && s[3] == 112 && s[4] == 97 && s[5] == 114 && s[6] == 115 && s[7] == 101 && s[8] == 54 && s[9] == 60 && s[10] == 60
